@@ -279,7 +279,7 @@ class H:
         name = self._uniq(name)
         self.concrete_checks.append((name, bool(ok), detail))
 
-    def eq(self, name, a, b, tol=1e-6):
+    def eq(self, name, a, b, tol=1e-6, tol_abs=1e-10):
         if self.sym:
             ea, eb = _bexprs(a, b)
             neg = z3.Or(*[x != y for x, y in zip(ea, eb)]) if ea else z3.BoolVal(False)
@@ -293,8 +293,11 @@ class H:
                 self._crecord(name, True)
                 return
             with np.errstate(all="ignore"):
-                err = np.abs(fa - fb) / (1 + np.abs(fa) + np.abs(fb))
-            bad = ~(err <= tol)
+                diff_ = np.abs(fa - fb)
+                err = diff_ / (1 + np.abs(fa) + np.abs(fb))
+                # small quantities (far-tail probabilities ...) must also agree relatively
+                rel_bad = (diff_ > 1e-3 * (np.abs(fa) + np.abs(fb))) & (diff_ > tol_abs)
+            bad = ~(err <= tol) | rel_bad
             self._crecord(name, not bad.any(), f"max rel err {np.nanmax(err):.3g}; code={fa.ravel()[:6]} ref={fb.ravel()[:6]}")
 
     def le(self, name, a, b, tol=1e-9, strict=False):
